@@ -277,6 +277,17 @@ def check(ix, rep):
         f_ = k_.methods.get('time_unit_transformer') if k_ is not None else None
         if f_ is not None:
             memo.check_method(ix, rep, k_, f_, 'converter')
+    # the samples computed with are the samples supplied (no conversion of the elements on entry)
+    from sa.rules import truthy as _te
+    _ne = 0
+    for _m in M.standard_monitors(ix):
+        if _m.mode == 'offline':
+            _de = ix.resolve_method(_m.cls, 'set_variable_to_ast_from_dataset')
+            if _de is None:
+                raise AnalysisError('set_variable_to_ast_from_dataset of %s vanished' % _m.kind)
+            rep.analysed(_de)
+            _ne += _te.check_entry_verbatim(ix, rep, _de, _m.kind)
+    rep.floor('data-entry stores', _ne, 2)
     # the two monitors are fed the same lists: neither may write into what it was handed (an operand overwritten in place is read changed by
     # the next operator of the same formula)
     from sa.rules import ownrule as _own
